@@ -229,7 +229,9 @@ class Rule_ST09(BaseRule):
             second_table_seg = second_column_reference.get_child(
                 "naked_identifier", "quoted_identifier"
             )
-            assert first_table_seg and second_table_seg
+            if not (first_table_seg and second_table_seg):
+                # References made of variables only (e.g. `$1.$2`), skip.
+                continue
             first_table = first_table_seg.raw_normalized(False).upper()
             second_table = second_table_seg.raw_normalized(False).upper()
 
